@@ -252,7 +252,10 @@ Definition next_reader (c:rcfg) (s:rst) : rout * rst :=
 Fixpoint read_loop (fuel:nat) (c:rcfg) (m:nat) (s:rst) : bytes * option rerr * rst :=
   match rerror s with
   | Some e =>
-      ([], Some (if is_io_eof e && match cur s with Some _ => true | None => false end then unexpected_eof else e), s)
+      (* the transport ended inside the message (when the last bytes of the message came together
+         with io.EOF, io.EOF is the answer) *)
+      ([], Some (if is_io_eof e && match cur s with Some _ => true | None => false end
+                    && ((0 <? rem s) || negb (rfin s)) then unexpected_eof else e), s)
   | None =>
     match fuel with
     | O => ([], None, s <| outoffuel := true |>)
